@@ -369,26 +369,31 @@ def c15(ctx):
                       None if not leak else dict(returns=leak)))
     # clone before any data copy: in every worker role, whatever moves file data in the Copy arm is
     # control-dependent on the mode function having answered `false`; no other role moves file data
-    nhosts = 0
-
-    def gated_copies(lab, w, depth, seen):
-        """Every data-moving call in view w is control-dependent on `mode function == false`, here or -- when the
-        call hands the work to a closure / helper that is not part of the view -- inside that callee."""
-        nonlocal nhosts
+    def gated_copies(lab, w, depth, seen, want, acc):
+        """Every data-moving call in view w is control-dependent on the mode function's negative answer, here or --
+        when the call hands the work to a closure / helper that is not part of the view -- inside that callee."""
         for n2, (bi, t, how) in enumerate(ro.performers(fx, w, DATA_COPY)):
-            ok, why = q.gated(w, bi, "call", modefn, False)
+            ok, why = q.gated(w, bi, "call", modefn, want)
             if not ok and how != "direct" and depth < 4:
                 subs = [c for c in [q.names(t)[1]] + list((t.get("fn") or {}).get("fnvals", []))
                         if c in fx.fns and c != modefn and ro.performers(fx, fx.fns[c], DATA_COPY) and c not in seen]
                 if subs:
                     for c in subs:
-                        gated_copies(lab, views.view(fx, c, depth=9), depth + 1, seen | {c})
+                        gated_copies(lab, views.view(fx, c, depth=9), depth + 1, seen | {c}, want, acc)
                     continue
-            nhosts += 1
-            obs.append(Ob("R-ORDER", mkkey("R-ORDER", lab, q.names(t)[0] or "?", n2, "after-clone-attempt:%d" % depth), ok,
+            acc.append(Ob("R-ORDER", mkkey("R-ORDER", lab, q.names(t)[0] or "?", n2, "after-clone-attempt:%d" % depth), ok,
                           q.loc_of(t), lab, "data copy %s: %s" % (ro._nm(t), why), None if ok else dict(block="bb%d" % bi)))
-    for lab, w in views.workers(fx):
-        gated_copies(lab, w, 0, set())
+    # which answer of the mode function means "not cloned" is its own convention (`false`, `NotCloned`, or a
+    # `needs_copy == true`): every data copy must depend on the *same* answer
+    best = None
+    for want in (False, True):
+        acc = []
+        for lab, w in views.workers(fx):
+            gated_copies(lab, w, 0, set(), want, acc)
+        if best is None or sum(1 for o_ in acc if not o_.ok) < sum(1 for o_ in best if not o_.ok):
+            best = acc
+    obs += best
+    nhosts = len(best)
     if nhosts < 2:
         obs.append(anchor_ob("R-ORDER", "data-copy sites in the worker roles (found %d)" % nhosts))
     wl = set(v.inlined_from for lab, v in views.workers(fx))
@@ -561,6 +566,26 @@ SIB_EFFECTS = MUTATING | {FILE_OPEN, "libxcp::paths::lexists", "libxcp::paths::e
 EFFECT_CLASS = {WRITE: "write-data", WRITE_ALL: "write-data", PWRITE: "write-data"}
 
 
+INT_TYS = ("u8", "u16", "u32", "u64", "u128", "usize", "i8", "i16", "i32", "i64", "i128", "isize", "f32", "f64")
+
+
+def _numeric_fields(fx, adt, _memo={}):
+    k = (id(fx), adt)
+    if k not in _memo:
+        out = set()
+        for c in fx.crates.values():
+            for a in c.get("adts", []):
+                if a["path"] == adt:
+                    for v in a.get("variants", []):
+                        for i, fl in enumerate(v.get("fields", [])):
+                            if fl.get("ty") in INT_TYS:
+                                out.add(fl.get("name"))
+                                out.add(i)
+                                out.add(str(i))
+        _memo[k] = out
+    return _memo[k]
+
+
 def sibling_agreement(fx, variants=("Link", "Special", "Copy")):
     """R-SIB(1): the two drivers' handlers of each Operation variant agree on the effects applied, the Config
     flags that guard them, and error handling (every fallible call classified OK by R-ERR)."""
@@ -599,7 +624,8 @@ def sibling_agreement(fx, variants=("Link", "Special", "Copy")):
                 t = f.blocks[bi]["term"]
                 if t["k"] == "switch" and t.get("op_ty") == "bool":
                     for rd in q.switch_field_reads(f, bi):
-                        if rd[0] == CONFIG:
+                        # flags and modes gate effects; sizes (block_size, workers) only shape loops and are not compared
+                        if rd[0] == CONFIG and rd[1] not in _numeric_fields(fx, CONFIG):
                             gates.add(rd[1])
             summ[(w, v)] = (eff, gates)
             # error handling inside the arm
@@ -838,6 +864,9 @@ def c11(ctx):
     obs += [o for o in _pg.helpers_always_apply(fx) if "allocate_file" in o.key]
     obs += sparse_dispatch(fx)
     obs += parblock_ranges(fx)
+    import p_range
+    obs += p_range.jobs_within_range(fx)
+    ctx.rep.extra["range_arithmetic"] = dict(decided=p_range.jobs_within_range.decided, undecided=p_range.jobs_within_range.notes)
     ctx.add(obs)
 
 
